@@ -20,8 +20,11 @@ T0 = 1000.0
 class Stream:
     encoding = "utf-8"
 
+    def __init__(self, fd=0):
+        self.fd = fd
+
     def fileno(self):
-        return 0
+        return self.fd
 
 
 class Model:
@@ -202,7 +205,7 @@ class Env:
         m = self.model
         kind = it[0]
         if kind == "bytes":
-            kernel.fds[0]["buf"].extend(it[1])
+            kernel.fds[kernel.TTY]["buf"].extend(it[1])
             m.arrived(it[1])
             m.burst_sizes.append(len(it[1]))
         elif kind == "unget":
@@ -258,6 +261,8 @@ class Env:
         elif kind == "sigint":
             m.sigints += 1
             kernel.deliver_sigint()
+        elif kind == "sigwinch":
+            kernel.deliver_signal(28)
         else:
             raise vk.HarnessError("unknown event %r" % (it,))
 
@@ -317,17 +322,20 @@ def run_scenario(scn, chooser):
     model = Model()
     env = Env(scn["script"], model)
     env.chooser = chooser
-    kernel = vk.Kernel(chooser, env)
+    low = bool(scn.get("low_fds"))
+    kernel = vk.Kernel(chooser, env, tty_fd=7 if low else 0, lowest_free=low)
+    if scn.get("winch_handler"):
+        kernel.handlers[28] = lambda signum, frame: None  # the program has its own SIGWINCH handler
     kernel.max_selects = scn.get("max_selects", 200)
     vk.install(kernel)
     fails = []
     obs = []
     try:
-        inp = ci.Input(in_stream=Stream(), keynames="bytes", paste_threshold=scn["paste_threshold"], sigint_event=scn["sigint_event"], disable_terminal_start_stop=scn.get("dtss", False))
+        inp = ci.Input(in_stream=Stream(kernel.TTY), keynames="bytes", paste_threshold=scn["paste_threshold"], sigint_event=scn["sigint_event"], disable_terminal_start_stop=scn.get("dtss", False))
         env.inp = inp
         if scn.get("typeahead"):
             # typed before the program got as far as entering the context
-            kernel.raw_write(0, scn["typeahead"])
+            kernel.raw_write(kernel.TTY, scn["typeahead"])
             model.arrived(scn["typeahead"])
         inp.__enter__()
         env.cbs = {"plain": inp.event_trigger(Tag), "ts": inp.threadsafe_event_trigger(TsTag), "sched": inp.scheduled_event_trigger(Sched)}
@@ -371,6 +379,10 @@ def run_scenario(scn, chooser):
                 return "stop"
             kernel.in_request = False
             end = kernel.clock
+            th_ = scn["paste_threshold"]
+            if th_ is not None and m.reads and max(m.reads) > th_ and m.reads[0] > th_ and not isinstance(r, events.PasteEvent):
+                # whatever the request returns instead, the burst it has just read can no longer come back as one paste event
+                fails.append(("C08:burst_over_threshold_not_a_paste_event", "the request read %r bytes (> %d) from the terminal and returned %r" % (m.reads, th_, r)))
             # ---- classify and check ---------------------------------------------------------------------
             if r is None:
                 obs.append("None")
@@ -470,7 +482,7 @@ def run_scenario(scn, chooser):
                 # the program leaves the context, input arrives meanwhile, and it enters the same Input again
                 env.done[i] = True
                 inp.__exit__(None, None, None)
-                kernel.raw_write(0, it[1])
+                kernel.raw_write(kernel.TTY, it[1])
                 model.arrived(it[1])
                 inp.__enter__()
             elif not env.done[i]:
@@ -507,7 +519,7 @@ def run_scenario(scn, chooser):
                 if straddles and unit[:1] >= b"\xc2" and (th_ is None or th_ >= 1024):
                     sig_ = "C08:multibyte_character_split_by_the_1024_byte_read_comes_back_as_single_bytes"
                 fails.append((sig_, "keypress %d is %r, expected %r (%d keypresses, %d expected)" % (k, keys_out[k : k + 2], scn["units"][k : k + 2], len(keys_out), len(scn["units"]))))
-            if not stopped and (kernel.fds[0]["flags"] & vk.O_NONBLOCK):
+            if not stopped and (kernel.fds[kernel.TTY]["flags"] & vk.O_NONBLOCK):
                 fails.append(("C08:stream_left_nonblocking", ""))
         while env.paused_calls:
             try:
@@ -565,7 +577,7 @@ def family_bytes(thorough):
 POOL = [
     ("event", "e1"), ("event", "e2"), ("ts", "t1"), ("ts", "t2"), ("ts", "f3"),
     ("sched", "s_soon", T0 + 2.0), ("sched", "s_soon2", T0 + 2.0), ("sched", "s_past", T0 - 1.0), ("sched", "s_late", T0 + 8.0), ("sched", "s_mid", T0 + 3.0),
-    ("sigint",), ("bytes", b"a"), ("bytes", b"\x1b[A"), ("unget", b"b"),
+    ("sigint",), ("bytes", b"a"), ("bytes", b"\x1b[A"), ("unget", b"b"), ("bytes", b"abcdefghijkl"),
 ]
 
 
@@ -640,6 +652,12 @@ def family_large(thorough):
     for lead in range(0, 8):
         units = [b"a"] * lead + [b"\x1b[1;10A", b"x"] * 400
         yield {"paste_threshold": 8, "sigint_event": False, "script": [("bytes", b"".join(units)), ("req", 0), ("req", 0)], "family": "large_burst", "units": units}
+    # every paste threshold from 1 to 12 (and 100): sequences of 3, 4, 5 and 7 bytes at every alignment against the 1 024-byte read
+    for th in (1, 2, 3, 4, 5, 6, 7, 9, 12, 100):
+        for seq in (b"\x1b[A", b"\x1b[5~", b"\x1b[15~", b"\x1b[1;10A"):
+            for lead in range(0, len(seq) + 1):
+                units = [b"a"] * lead + [seq, b"x"] * 300
+                yield {"paste_threshold": th, "sigint_event": False, "script": [("bytes", b"".join(units)), ("req", 0), ("req", 0)], "family": "large_burst", "units": units}
     # more than 200 000 keypresses in one paste
     units = [b"a", b"b", b"c"] * 67000
     yield {"paste_threshold": 8, "sigint_event": False, "script": [("bytes", b"".join(units)), ("req", 0), ("req", 0)], "family": "large_burst", "units": units}
@@ -662,6 +680,26 @@ def family_lifecycle(thorough):
                 for head in ([], [("bytes", b"a"), ("req", 0)], [("bytes", b"ab"), ("req", 0)], [("bytes", b"q")], [("event", "e1")], [("ts", "t1")], [("sigint",)] if sig else [("unget", b"u")]):
                     for tail in tails[:3] if not thorough else tails:
                         yield {"paste_threshold": 8, "sigint_event": sig, "dtss": dtss, "script": list(head) + [("reenter", mid)] + list(tail), "family": "lifecycle"}
+
+
+def family_process_environment(thorough):
+    """(a) the standard descriptors are closed and the terminal sits on a high number: the first pipes get descriptors 0, 1, 2 ...;
+    (b) the program has its own handler for another signal (SIGWINCH) which arrives once, twice, three times inside requests."""
+    T = T0
+    heads = [[("sigint",)], [("ts", "t1")], [("sigint",), ("ts", "t1")], [("bytes", b"a"), ("sigint",)], [("event", "e1"), ("sigint",)], [("sched", "s_past", T - 1.0), ("sigint",)]]
+    for head in heads:
+        for tp in ((None, 0), (5.0, 0), (0, None), (5.0, 5.0)):
+            for slots in ("before", "between"):
+                script = (list(head) + [("req", tp[0]), ("req", tp[1])]) if slots == "before" else ([("req", 0)] + list(head) + [("req", tp[0]), ("req", tp[1])])
+                yield {"paste_threshold": 8, "sigint_event": True, "low_fds": True, "script": script, "family": "process_environment"}
+    for n in (1, 2, 3):
+        for extra in ([], [("bytes", b"a")], [("ts", "t1")], [("sched", "s_late", T + 8.0)]):
+            for tp in (5.0, None):
+                if tp is None and not any(x[0] in ("bytes", "ts") for x in extra):
+                    continue
+                script = [("sigwinch",)] * n + list(extra) + [("req", tp), ("req", 5.0), ("req", 0)]
+                yield {"paste_threshold": 8, "sigint_event": n % 2 == 0, "winch_handler": True, "script": script, "family": "process_environment"}
+                yield {"paste_threshold": 8, "sigint_event": True, "winch_handler": True, "low_fds": True, "script": script, "family": "process_environment"}
 
 
 def family_long_session(thorough):
@@ -711,13 +749,16 @@ def show(scn):
         out["typeahead"] = scn["typeahead"].decode("latin-1")
     if "dtss" in scn:
         out["disable_terminal_start_stop"] = scn["dtss"]
+    for k_ in ("low_fds", "winch_handler"):
+        if scn.get(k_):
+            out[k_] = True
     return out
 
 
 def all_scenarios(tier):
     thorough = tier == "thorough"
     out = []
-    for fam in (family_bytes, family_events, family_three_requests, family_large, family_lifecycle, family_long_session):
+    for fam in (family_bytes, family_events, family_three_requests, family_large, family_lifecycle, family_long_session, family_process_environment):
         for scn in fam(thorough):
             if usable(scn):
                 out.append(scn)
@@ -734,8 +775,10 @@ def timing_independent(scn):
             return False
         if it[0] == "sched" and it[2] >= T0:
             return False
-        if it[0] in ("ts_register", "ts_fire_new"):
+        if it[0] in ("ts_register", "ts_fire_new", "sigwinch"):
             return False
+    if scn.get("low_fds"):
+        return False
     return True
 
 
